@@ -115,7 +115,11 @@ def oracle_point(code, kind, x, y):
             d = code.cdp_delta(rho, e)
             if d > delta * (1 + 1e-9):
                 return 'eps unsound: implied delta exceeds the target', dict(rho=rho, delta=delta, eps=e, implied=d)
-            if e > 0 and best_bound(rho, e * (1 - 1e-6)) <= delta * (1 - 1e-6):
+            if best_bound(rho, 0.0) <= delta * (1 - 1e-6):
+                # the target is already met at eps = 0 (large delta): the smallest eps is 0 and the bisection returns its last upper end (~1e-300)
+                if e > 1e-6:
+                    return 'eps not tight', dict(rho=rho, delta=delta, eps=e, note='eps = 0 already meets the target')
+            elif e > 0 and best_bound(rho, e * (1 - 1e-6)) <= delta * (1 - 1e-6):
                 return 'eps not tight', dict(rho=rho, delta=delta, eps=e)
             r2 = code.cdp_rho(e, delta)
             if not (abs(r2 - rho) <= 1e-6 * max(rho, 1e-9)):
